@@ -253,6 +253,26 @@ class SchemaGen:
         return r.choice([float("nan"), float("inf"), 2**31, -2**31 - 1, 1.5, "abc", "12", "", True, [], [1], {}, {"a": 1}, (1, 2), 10**400,
                          "BAD", "A", "Z", 0, -0.0, 2.0, "1e400", {"x": False, "m": "as value", "e": []}, {"o": "Weird", "a": []}, None])
 
+    def targeted_bad(self, ty):
+        """values aimed at the declared type of the position (boundary / look-alike garbage)"""
+        r = self.r
+        t = ty
+        while "nn" in t: t = t["nn"]
+        if "l" in t:
+            return r.choice([(1, 2), {"a": 1}, "notalist", 5, {"o": "Gen", "a": []}, [None], [[None]]])
+        b = t["n"]
+        if b == "Int": return r.choice(["2147483648", "-2147483649", "1e10", 2**31, -2**31 - 1, 1.5, "1.5", "12", 12.0, float("nan"), True, "", " 7 ", 10**400, "0x10"])
+        if b == "Float": return r.choice(["1e999", "-1e999", "nan", "inf", "-Infinity", float("inf"), float("nan"), 10**400, "1.5", "abc", True, [], "1e-999"])
+        if b == "String": return r.choice([12, 1.5, True, [], {"a": 1}, (1,), None, {"o": "Obj", "a": []}, float("nan")])
+        if b == "Boolean": return r.choice(["true", "false", "", 0, 1, 2, 1.5, float("nan"), float("inf"), [], "yes", 10**400])
+        if b == "ID": return r.choice([1.5, True, False, 7.0, float("inf"), [], {"a": 1}, 10**30, -0.0])
+        td = self.tdef(b)
+        if td and td["kind"] == "enum": return r.choice(["a", "Z", td["values"][0].lower(), 0, True, [td["values"][0]], "", td["values"][0] + " "])
+        if td and td["kind"] in ("object", "interface", "union"):
+            return r.choice([5, "str", [], [1], True, {"d": [["_typename", "Nope"]]}, {"d": [["_typename", {"i": "5"}]]}, {"o": "Nope", "a": []}, {"d": [["_typename", "Query"]]},
+                             {"d": [["_typename", r.choice(self.obj_names)]]}, {"o": r.choice(self.obj_names), "a": []}, {"d": [["_typename", "E"]]}])
+        return r.choice(["BAD", {"o": "X", "a": []}, float("nan")])
+
     def possible(self, n):
         t = self.tdef(n)
         if t["kind"] == "object": return [n]
@@ -264,9 +284,9 @@ class SchemaGen:
         """Python-side *wire* value (see pyval.py) for output type `ty`; adv = probability of garbage"""
         r = self.r
         if r.random() < adv:
-            v = self.bad_leaf()
+            v = self.bad_leaf() if r.random() < 0.5 else self.targeted_bad(ty)
             from pyval import enc
-            return v if isinstance(v, dict) and ("x" in v or "o" in v) else enc(v)
+            return v if isinstance(v, dict) and ("x" in v or "o" in v or "d" in v) else enc(v)
         from pyval import enc
         if "nn" in ty:
             return self.value_for(ty["nn"], depth, adv)
@@ -318,8 +338,14 @@ class SchemaGen:
                         res[coord] = {"k": "argEcho", "arg": f["args"][0]["name"]}
                     else: res[coord] = {"k": "const", "v": self.value_for(f["type"], 2, adv)}
         env = {"resolvers": res, "fieldTypeResolvers": {}, "typeResolvers": {}}
+        for root in roots + self.objs:
+            for f in root["fields"]:
+                coord = f"{root['name']}.{f['name']}"
+                b = base(f["type"])
+                if coord in res and res[coord]["k"] == "const" and b in self.iface_names + self.union_names and self.possible(b) and r.random() < 0.35:
+                    env["fieldTypeResolvers"][coord] = r.choice([{"k": "const", "name": r.choice(self.possible(b))}, {"k": "key", "key": "_typename"}])
         for a in self.iface_names + self.union_names:
-            if r.random() < 0.25 and self.possible(a):
+            if r.random() < 0.4 and self.possible(a):
                 env["typeResolvers"][a] = r.choice([{"k": "const", "name": r.choice(self.possible(a))}, {"k": "key", "key": "_typename"}])
         return env
 
@@ -382,7 +408,7 @@ class DocGen:
         n = r.randint(1, 4)
         for _ in range(n):
             k = r.random()
-            if depth > 4:
+            if depth > 4 or self.stats["fields"] > 60:
                 leafs = [f for f in fields if base(f["type"]) in self.sg.leaf_names]
                 items.append(self.field_text(r.choice(leafs), depth, vars_) if leafs else "__typename")
             elif fields and k < 0.6:
@@ -398,6 +424,18 @@ class DocGen:
                 items.append("... " + (f"on {tc}" if tc else "") + d + " " + self.selection_set(tc or tn, depth + 1, vars_))
             elif depth <= 4:
                 items.append(self.spread_text(tn, depth, vars_))
+        # merge booster: select an already selected composite field again, with another sub-selection,
+        # plainly or under a narrower type condition (merged sub-selections, per-runtime-type collection)
+        comp = [f for f in fields if base(f["type"]) not in self.sg.leaf_names and not any(is_nn(a["type"]) and not a.get("default") for a in f["args"])]
+        if comp and depth <= 2 and self.stats["fields"] < 40 and r.random() < 0.3:
+            f = r.choice(comp)
+            again = f"{f['name']} " + self.selection_set(base(f["type"]), depth + 1, vars_)
+            first = f"{f['name']} " + self.selection_set(base(f["type"]), depth + 1, vars_)
+            narrower = [c for c in self.sg.possible(tn) if c != tn]
+            if narrower and r.random() < 0.6:
+                again = f"... on {r.choice(narrower)} {{ {again} }}"
+            items += [first, again] if r.random() < 0.7 else [again, first]
+            self.stats["merged"] += 1
         if not items: items.append("__typename")
         return "{ " + " ".join(items) + " }"
 
